@@ -25,7 +25,6 @@ import itertools
 import logging
 import math
 import os
-import random
 import re
 import tempfile
 from fractions import Fraction
@@ -551,7 +550,7 @@ def strand_patterns(k):
     return pats
 
 
-def single_scaffold_geometries(tier, rng):
+def single_scaffold_geometries():
     """
     one input scaffold of <= 3 contigs: every length tuple from the length set that keeps the scaffold below
     ~1300 bp, uniform gap choice, four strand patterns, three naming styles (cycled), optional terminal gaps
@@ -672,7 +671,7 @@ def subtexel_run_inputs(rng, n):
         yield inp
 
 
-def model_cases(tier, rng, painted_p=0.5, budget=None):
+def model_cases(tier, rng, painted_p=0.5):
     """
     The shared stream of PretextView-model cases (untagged apart from Painted).  Yields (family, case, info).
       single    one scaffold, <= 3 contigs, every length tuple (see single_scaffold_geometries) x 4 texel sizes,
@@ -681,7 +680,7 @@ def model_cases(tier, rng, painted_p=0.5, budget=None):
       multi     2-3 scaffolds x <= 3 contigs, seeded, cut / permuted / reoriented / regrouped
     """
     quick = tier == "quick"
-    geoms = single_scaffold_geometries(tier, rng)
+    geoms = single_scaffold_geometries()
     m = 1 if quick else 6
     i = 0
     # quick: every geometry at one texel size (rotating), thorough: at every texel size
